@@ -184,9 +184,17 @@ func RunDispatch(t *testing.T, sc *DScenario) (recs []interface{}, failure strin
 		var wg sync.WaitGroup
 		wg.Add(2)
 		go func() { defer wg.Done(); _ = h.Run() }()
+		gate := make(chan struct{}, 1) // a token: the writer may take messages off the queue
+		gate <- struct{}{}
 		go func() {
 			defer wg.Done()
 			for {
+				select {
+				case <-gate: // (held back during a burst: the messages wait in the queue, as behind a slow connection)
+					gate <- struct{}{}
+				case <-done:
+					return
+				}
 				select {
 				case raw := <-h.Outgoing():
 					raw = append([]byte{}, raw...)
@@ -224,6 +232,7 @@ func RunDispatch(t *testing.T, sc *DScenario) (recs []interface{}, failure strin
 		st.mu.Lock()
 		st.n, st.failAt = 0, sc.SaveFailAt
 		st.mu.Unlock()
+		nrec := 0
 		for i, stp := range sc.Steps {
 			if i == sc.LateAt && i > 0 {
 				n := 0
@@ -236,6 +245,49 @@ func RunDispatch(t *testing.T, sc *DScenario) (recs []interface{}, failure strin
 				if n > 0 {
 					recs = append(recs, DRegObs{"dreg", sc.ID, 0})
 				}
+			}
+			if stp.A == "burst" {
+				// ONE message object sent three times while the writer is held back, then the queue drains: every transmission
+				// is judged like a send of its own (what the handlers saw, what was saved, what went out)
+				<-gate
+				own := fixgen.NewMarketDataRequest()
+				var parts []DStepObs
+				for k := 0; k < 3; k++ {
+					err := s.Send(own.SetMDReqID("b"+strconv.Itoa(k))) != nil
+					mu.Lock()
+					o := DStepObs{K: "dstep", ID: sc.ID, A: DStep{A: "send", Ty: "V"}, Calls: calls, Saves: saves, Wire: []WireMsg{}, Err: err}
+					calls, saves, pos = nil, nil, 0
+					mu.Unlock()
+					if o.Calls == nil {
+						o.Calls = []Call{}
+					}
+					if o.Saves == nil {
+						o.Saves = []SaveRec{}
+					}
+					parts = append(parts, o)
+				}
+				gate <- struct{}{}
+				synctest.Wait()
+				mu.Lock()
+				w := wire
+				calls, saves, wire, pos = nil, nil, nil, 0
+				mu.Unlock()
+				j := 0
+				for k := range parts {
+					if !parts[k].Err && j < len(w) {
+						parts[k].Wire = []WireMsg{w[j]}
+						j++
+					}
+				}
+				for ; j < len(w); j++ { // more on the wire than sends that succeeded
+					parts[len(parts)-1].Wire = append(parts[len(parts)-1].Wire, w[j])
+				}
+				for k := range parts {
+					nrec++
+					parts[k].I = nrec
+					recs = append(recs, parts[k])
+				}
+				continue
 			}
 			callErr := false
 			switch stp.A {
@@ -259,7 +311,8 @@ func RunDispatch(t *testing.T, sc *DScenario) (recs []interface{}, failure strin
 			}
 			synctest.Wait()
 			mu.Lock()
-			o := DStepObs{K: "dstep", ID: sc.ID, I: i + 1, A: stp, Calls: calls, Saves: saves, Wire: wire, Err: callErr}
+			nrec++
+			o := DStepObs{K: "dstep", ID: sc.ID, I: nrec, A: stp, Calls: calls, Saves: saves, Wire: wire, Err: callErr}
 			calls, saves, wire, pos = nil, nil, nil, 0
 			mu.Unlock()
 			if o.Calls == nil {
